@@ -53,21 +53,42 @@ class _TrackedQueue(_queue.Queue):
         _TrackedQueue.created.append(self)
 
 
+class _TrackedThread(_threading.Thread):
+    created = []
+
+    def __init__(self, *a, **k):
+        super().__init__(*a, **k)
+        _TrackedThread.created.append(self)
+
+
 def _reaping_run_conversion_loop(*a, **k):
     if _cu.Queue is not _queue.Queue or os.environ.get('SZV_NO_REAP'):
         return _orig_rcl(*a, **k)
     _cu.Queue = _TrackedQueue
     mark = len(_TrackedQueue.created)
+    track_threads = _cu.Thread is _threading.Thread
+    if track_threads:
+        _cu.Thread = _TrackedThread
+    tmark = len(_TrackedThread.created)
     try:
         return _orig_rcl(*a, **k)
     finally:
         _cu.Queue = _queue.Queue
+        if track_threads:
+            _cu.Thread = _threading.Thread
         mine, _TrackedQueue.created[mark:] = _TrackedQueue.created[mark:], []
+        poisoned = True
         for q in mine:
             try:
                 q.put_nowait(_POISON)
             except Exception:
-                pass
+                poisoned = False
+        # wait until the reaped workers are gone: a worker that wakes up later would run its last (failing) statement
+        # inside whatever the NEXT case has substituted for zfpy / the file (the C16 harness substitutes both)
+        mine_t, _TrackedThread.created[tmark:] = _TrackedThread.created[tmark:], []
+        for t in mine_t:
+            if t is not _threading.current_thread() and t.ident is not None:
+                t.join(10 if poisoned else 0.5)
 
 
 _prev_excepthook = _threading.excepthook
@@ -75,7 +96,7 @@ _prev_excepthook = _threading.excepthook
 
 def _quiet_excepthook(args):
     if args.thread is not None and getattr(args.thread, '_target', None) in (None, _cu.compressor, _cu.writer) and \
-            args.exc_type in (TypeError, ValueError, AttributeError):
+            (args.exc_type in (TypeError, ValueError, AttributeError) or args.exc_type.__name__ == 'Abort'):
         return          # a reaped worker thread
     _prev_excepthook(args)
 
